@@ -217,6 +217,12 @@ fn lookup_class(l: &Lookup) -> &'static str {
 
 pub fn check_table(out: &mut CaseOut, rng: &mut Rng, spec: &TableSpec, thorough: bool) {
     let fs = SimFs::from_image(&dbutil::skeleton_image("/c13"));
+    // every fourth table is built on a file that takes only part of a large buffer per write call
+    let write_limit = if rng.chance(0.25) { *rng.pick(&[64usize, 1000, 4096]) } else { 0 };
+    fs.set_write_limit(write_limit);
+    if write_limit > 0 {
+        out.add("tables_built_on_a_file_with_partial_writes", 1);
+    }
     let cfg = Config {
         memtable: 4096,
         file: 1 << 20,
@@ -225,7 +231,7 @@ pub fn check_table(out: &mut CaseOut, rng: &mut Rng, spec: &TableSpec, thorough:
     };
     let options = dbutil::options(fs.as_provider(), "/c13", &cfg);
     let entries = &spec.entries;
-    let ctx = json!({"family": spec.family.name(), "max_block_size": spec.block, "entries": entries.len(),
+    let ctx = json!({"family": spec.family.name(), "max_block_size": spec.block, "entries": entries.len(), "file_takes_at_most_bytes_per_write": write_limit,
         "first_keys": entries.iter().take(4).map(|e| format!("{}@{}", show(&e.0), e.1)).collect::<Vec<_>>()});
     let size = match table::build(&options, 7, entries) {
         Ok(size) => size,
